@@ -132,7 +132,7 @@ Definition joinaccept_dec_into (prev : payload) (data : list N) : outcome payloa
             then do c <- cflist_dec_into zero_cflist (skipn 12 data); Ok (Some c)   (* p.CFList = &CFList{} *)
             else Ok None);                                                          (* p.CFList = nil (after fix 4dbc1ba) *)
   Ok (PLJoinAccept (le_val (firstn 3 data)) (rev (firstn 3 (skipn 3 data))) (rev (firstn 4 (skipn 6 data)))
-                   optneg rx2 rx1 (nth 11 data 0) cf).
+                   optneg rx2 rx1 (N.land (nth 11 data 0) 15) cf).   (* RXDelay = data[11] & 0x0f (fix C06-4) *)
 
 (* FHDR.UnmarshalBinary *)
 Definition zero_fctrl : fctrl := mkFCtrl false false false false false 0.
